@@ -31,7 +31,7 @@ def run_history(tid, actions):
             return 0
 
     # reset the world
-    c04_mod.G, c04_mod.w, c04_mod.K.C, c04_mod.K.Inner.D, c04_aux.M = 2, 7, 3, 4, 5
+    c04_mod.G, c04_mod.w, c04_mod.KBase.C, c04_mod.K.Inner.D, c04_aux.M = 2, 7, 3, 4, 5
     f = c04_mod.make()
     built = []
     recs = []
@@ -53,7 +53,7 @@ def run_history(tid, actions):
             elif slot == "wg":
                 c04_mod.w = x
             elif slot == "C":
-                c04_mod.K.C = x
+                c04_mod.KBase.C = x
             elif slot == "D":
                 c04_mod.K.Inner.D = x
             elif slot == "M":
